@@ -146,3 +146,23 @@ Fixpoint established (expected : Z) (l : list attempt) : list Z :=
       | _ => established expected l'
       end
   end.
+
+(* ---- expected-peer enforcement at the level callers use it ----
+   Transport.DialPeer(x, addr): either the dial function passes x to the TLS
+   handshake (ConfigForPeer(x): the session dial helpers with a peer id), or --
+   pconn, inproc, udp, websocket dial functions -- the handshake is made with an
+   EMPTY expected peer and DialPeer compares the link's remote peer with x
+   afterwards. *)
+Inductive enforcement := AtTls | PostCheck.
+
+Definition dial_expected (k : enforcement) (x : Z) (a : attempt) : outcome Z :=
+  match k with
+  | AtTls => handshake x a
+  | PostCheck =>
+      id <- handshake 0 a ;;
+      if negb (Z.eqb x 0) && negb (Z.eqb id x) then Err E_PEER_MISMATCH else Ok id
+  end.
+
+(* who "answers" a dial made with an empty TLS constraint (input of Dial/Model.v) *)
+Definition answerer (a : attempt) : option Z :=
+  match handshake 0 a with Ok id => Some id | _ => None end.
